@@ -41,6 +41,10 @@ RULE = ("Tape sessions of 1-4 files; types D (data via PRINT#;), A/B/P (program 
         "255, 256, 510, 511) x tape position first/middle/last enumerated on CAS and WAV; "
         "contents printable / all byte values / constant 0xFF, 0x00, 0xA5, 0x16 runs; names 1-8 "
         "characters (also equal names on files of different type); CAS and (small) WAV images; "
+        "data files are read back either in 255-byte aligned INPUT$ requests, line by line, or by a "
+        "generated plan of INPUT$(n) requests (1..255 bytes, misaligning first request, cycles "
+        "of sizes, mixed with LINE INPUT#) so that requests start at, end at and straddle the "
+        "255-byte record payload at every alignment; "
         "writer session closed, reader session reads an increasing selection by name or by "
         "'next file', only the last file (all others skipped), or every file by name in shuffled "
         "order with the tape reopened before each read. Non-trivial: at least 2 files on the tape and some content length within 2 "
@@ -50,6 +54,10 @@ ASSUMPTIONS = [
     "the Device Timeout rewind; that GW-BASIC behaviour is exercised but only the rewind-and-find "
     "is asserted)",
     "data file contents exclude byte 0x1A (end-of-file character of text files on every device) ",
+    "INPUT$ requests are at most 255 bytes (the longest BASIC string), so one request can straddle "
+    "one record boundary, not two; field-wise INPUT# is not mixed into the generated read plans "
+    "(its separator/quote rules on arbitrary content belong to C24); LOC is Illegal function call "
+    "on cassette files and is not exercised",
     "names are 1-8 characters without blanks or control characters, as the statement says; name "
     "matching is case-sensitive as written",
     "program images are compared as the interpreter's stored bytecode of the two sessions (state "
@@ -294,7 +302,7 @@ def _norm_files(case):
         name = f['name'].encode('latin-1')[:8]
         files.append({'name': name, 'type': f['type'], 'len': min(MAXLEN, max(0, f['len'])),
                       'style': f.get('style', 'print'), 'seed': f.get('seed', 0),
-                      'lines': bool(f.get('lines', False))})
+                      'lines': bool(f.get('lines', False)), 'rd': f.get('rd')})
     return files
 
 
@@ -578,10 +586,72 @@ def _check(case, res, sb):
         res.fail('escaped.%s@%s' % (c.exc, c.frame), desc + ' closing the reader session')
 
 
+def _check_data_plan(s, res, f, rdesc):
+    """
+    Read the file with a generated plan: a cycle of INPUT$(n,1) requests (1 <= n <= 255, the
+    longest BASIC string) and, for CR-structured printable content, LINE INPUT# - so that
+    requests start, end and straddle the 255-byte record payload at every alignment.  Model: a
+    position in the written bytes.  Everything read, concatenated, must equal what was written;
+    no error before the written length is exhausted; EOF exactly at the end.
+    """
+    content = f['content']
+    plan = [op for op in f['rd'] if op == 'L' or (isinstance(op, int) and 1 <= op <= 255)]
+    if not f['lines']:
+        plan = [op for op in plan if op != 'L']
+    if not plan:
+        plan = [255]
+    pos = 0
+    k = 0
+    res.label('read:plan')
+    while pos < len(content):
+        e = s.evaluate(b'EOF(1)')
+        if e.kind != 'ok' or e.errors or e.value != 0:
+            res.fail('read.eof-early', '%s: EOF(1)=%r after %d of %d bytes (plan %r)' % (
+                rdesc, e.value if e.kind == 'ok' else e, pos, len(content), plan))
+            return False
+        op = plan[k % len(plan)]
+        k += 1
+        if op == 'L':
+            idx = content.find(b'\r', pos)
+            exp = content[pos:] if idx < 0 else content[pos:idx]
+            npos = len(content) if idx < 0 else idx + 1
+            o = s.execute(b'LINE INPUT#1,L$')
+            var = 'L$'
+            what = 'LINE INPUT#'
+        else:
+            n = min(op, len(content) - pos)
+            exp = content[pos:pos + n]
+            npos = pos + n
+            o = s.execute(b'A$=INPUT$(%d,1)' % n)
+            var = 'A$'
+            what = 'INPUT$(%d,1)' % n
+            if pos // 255 != (npos - 1) // 255:
+                res.label('chunk-straddles-record')
+            if npos % 255 == 0:
+                res.label('chunk-ends-at-record-end')
+            if pos % 255 == 0 and pos:
+                res.label('chunk-starts-at-record-start')
+        if o.kind != 'ok' or o.errors:
+            res.fail('read.data-error', '%s: %s at offset %d of %d -> %r (plan %r)' % (
+                rdesc, what, pos, len(content), o, plan))
+            return False
+        got = bytes(s.get(var))
+        if got != exp:
+            res.fail('read.data-content', '%s: %s at offset %d of %d returned %d bytes %r, '
+                     'expected %d bytes %r (plan %r)' % (rdesc, what, pos, len(content), len(got),
+                                                        got[:24], len(exp), exp[:24], plan))
+            return False
+        pos = npos
+    return True
+
+
 def _check_data(s, res, f, rdesc):
     content = f['content']
     got = b''
-    if f['lines']:
+    if f.get('rd'):
+        if not _check_data_plan(s, res, f, rdesc):
+            return False
+    elif f['lines']:
         # LINE INPUT#: lines separated by CR
         exp_lines = content.split(b'\r') if content else []
         if content.endswith(b'\r'):
@@ -679,12 +749,35 @@ def rand_name(rng):
     return rng.choice(FIXED_NAMES)
 
 
+CHUNK_SIZES = [1, 2, 3, 7, 37, 100, 127, 128, 200, 254, 255]
+
+
+def rand_plan(rng, lines):
+    """a cycle of read requests; None = the default (255-byte aligned INPUT$ / all LINE INPUT#)"""
+    r = rng.random()
+    if r < 0.35:
+        return None
+    if r < 0.6:
+        # misaligning first request, then a fixed size
+        return [rng.randint(1, 255)] + [rng.choice(CHUNK_SIZES)] * 40
+    plan = [rng.choice(CHUNK_SIZES) if rng.random() < 0.5 else rng.randint(2, 255)
+            for _ in range(rng.randint(1, 5))]
+    if lines:
+        plan = [('L' if rng.random() < 0.4 else op) for op in plan] + ['L']
+    return plan
+
+
 def rand_file(rng):
     t = rng.choice(TYPES)
     ln = rand_length(rng)
-    return {'name': rand_name(rng), 'type': t, 'len': ln,
-            'style': rng.choice(STYLES) if t in ('D', 'M') else 'print',
-            'seed': rng.randint(0, 999), 'lines': t == 'D' and rng.random() < 0.33}
+    f = {'name': rand_name(rng), 'type': t, 'len': ln,
+         'style': rng.choice(STYLES) if t in ('D', 'M') else 'print',
+         'seed': rng.randint(0, 999), 'lines': t == 'D' and rng.random() < 0.33}
+    if t == 'D':
+        plan = rand_plan(rng, f['lines'])
+        if plan:
+            f['rd'] = plan
+    return f
 
 
 def _dedupe(files):
@@ -824,8 +917,40 @@ def gen_positions(shard, nshards, tier, seed):
     return iter(cases[shard::nshards])
 
 
+def gen_chunks(shard, nshards, tier, seed):
+    """
+    Data files of more than 1, 2, 3 and 4 records read with INPUT$(n,1): every n of CHUNK_SIZES
+    from offset 0, and n = 100 / 2 / 255 after a first request f that puts the following requests
+    at every alignment with the 255-byte records (quick: every 16th f and the ones around the
+    boundary; thorough: all f = 1..255), mixed LINE INPUT#/INPUT$ plans, CAS and a few WAV.
+    """
+    cases = []
+
+    def tape(fmt, ln, plan, lines=False, seed_=0):
+        return {'fmt': fmt, 'tail': False, 'files': [
+            {'name': 'LONG', 'type': 'D', 'len': ln, 'style': 'print' if lines else 'bytes',
+             'seed': seed_, 'lines': lines, 'rd': plan},
+            {'name': 'AFTER', 'type': 'D', 'len': 9, 'style': 'print', 'seed': 1}]}
+    for ln in (256, 300, 510, 511, 700, 766, 1021):
+        for n in CHUNK_SIZES:
+            cases.append(tape('cas', ln, [n], seed_=ln + n))
+    firsts = range(1, 256) if tier == 'thorough' else (
+        list(range(1, 255, 16)) + [54, 55, 56, 154, 155, 156, 252, 253, 254, 255])
+    for f1 in firsts:
+        for n in (100, 2, 255):
+            cases.append(tape('cas', 700, [f1] + [n] * 400, seed_=f1))
+    for k, plan in enumerate((['L', 100], [37, 'L', 'L'], ['L', 255, 1, 'L'], [200, 'L'],
+                              ['L', 2, 254], [128, 127, 'L'])):
+        for ln in (300, 600, 1000):
+            cases.append(tape('cas', ln, plan, lines=True, seed_=k * 7 + ln))
+    for ln, plan in ((700, [100]), (600, [37]), (520, [254, 2]), (300, ['L', 100])):
+        cases.append(tape('wav', ln, plan, lines='L' in plan, seed_=ln))
+    return iter(cases[shard::nshards])
+
+
 def units(tier):
     return [
+        Unit('chunks', 'enum', shards={'quick': 8, 'thorough': 16}, gen=gen_chunks),
         Unit('positions', 'enum', shards=16, gen=gen_positions),
         Unit('edges-cas', 'enum', shards={'quick': 8, 'thorough': 16}, gen=gen_edges),
         Unit('tapes-cas-rand', 'enum', shards=16, gen=_gen_rand('cas', 4, MAXLEN)),
@@ -839,6 +964,10 @@ def units(tier):
 
 
 REGRESSIONS = [
+    # seeded change (wave 5): CassetteStream.read returned short at the end of a record, so an
+    # INPUT$ request that straddles two records failed with Input past end
+    {'fmt': 'cas', 'tail': False, 'files': [
+        {'name': 'LONG', 'type': 'D', 'len': 700, 'style': 'bytes', 'seed': 5, 'rd': [100]}]},
     # seeded change (wave 4): an empty BSAVE image lost its (empty) data record, so the file
     # after it could not be found
     {'fmt': 'cas', 'tail': False, 'reads': [{'i': 1}], 'files': [
